@@ -4,8 +4,29 @@ for a point where two of them differ (witness for a REFUTED verdict)."""
 from fractions import Fraction
 from math import isqrt
 
-FMT = {32: (24, -126, 127), 64: (53, -1022, 1023)}
+# 80: the x87 extended format's VALUE SET (p = 64, emin = -16382, emax = 16383) in a private interchange-style
+# encoding (sign, 16 exponent bits of which the top code is inf/NaN, 63 fraction bits, hidden leading bit).
+# An x86_fp80 value is only ever an intermediate between fpext and fptrunc in the closed forms; the x87 bit
+# layout itself (explicit integer bit) is converted on entry by from_x87 and never observed otherwise
+# (irterm refuses bitcasts of x86_fp80).
+FMT = {32: (24, -126, 127), 64: (53, -1022, 1023), 80: (64, -16382, 16383)}
 MODES = ("RN", "RU", "RD", "RZ")
+
+
+def from_x87(v):
+    """x87 80-bit pattern -> the private 80-bit encoding; None for pseudo-denormals / unnormals"""
+    s, e, i, f = v >> 79, (v >> 64) & 0x7fff, (v >> 63) & 1, v & ((1 << 63) - 1)
+    if e == 0x7fff:
+        if not i:
+            return None
+        return (s << 79) | (0xffff << 63) | f
+    if e == 0:
+        if i:
+            return None
+        return (s << 79) | f
+    if not i:
+        return None
+    return (s << 79) | (e << 63) | f
 
 
 def parts(v, w):
